@@ -1306,7 +1306,9 @@ func c07CheckHashFunc(c *Ctx, h *ssa.Function) {
 		for _, fc := range callsIn(cc.Fn) {
 			hasData, hasCount := false, false
 			for _, a := range fc.Common.Args {
-				if a == data {
+				// the bytes handed to Write include the ones this call fills (the same slice value, or
+				// two views `buf[:]` of one array / slice)
+				if a == data || c07WriteCoversFill(data, a, fc.Common) {
 					hasData = true
 				}
 				if fromCount(a, xc.Chain) {
@@ -1452,6 +1454,83 @@ func c07CheckHashFunc(c *Ctx, h *ssa.Function) {
 	default:
 		oh.OK(fmt.Sprintf("%d calls in %d functions examined; control: %d sink calls elsewhere in the workspace", examined, len(reach), control))
 	}
+}
+
+// c07View describes a byte slice as a window [lo, hi) of its underlying storage (an array variable
+// or a slice value that is not itself a constant re-slicing); hi < 0 means "up to the end of base".
+type c07View struct {
+	base   ssa.Value
+	lo, hi int64
+}
+
+func c07BufView(v ssa.Value, depth int) (c07View, bool) {
+	v = stripConv(v)
+	sl, ok := v.(*ssa.Slice)
+	if !ok || depth > 4 {
+		return c07View{v, 0, -1}, !ok
+	}
+	var inner c07View
+	if a, isAlloc := sl.X.(*ssa.Alloc); isAlloc {
+		pt, isPtr := a.Type().Underlying().(*types.Pointer)
+		if !isPtr {
+			return c07View{}, false
+		}
+		at, isArr := pt.Elem().Underlying().(*types.Array)
+		if !isArr {
+			return c07View{}, false
+		}
+		inner = c07View{a, 0, at.Len()}
+	} else {
+		var ok bool
+		if inner, ok = c07BufView(sl.X, depth+1); !ok {
+			return c07View{}, false
+		}
+	}
+	out := inner
+	if sl.Low != nil {
+		k, isC := constInt(sl.Low)
+		if !isC || k < 0 {
+			return c07View{}, false
+		}
+		out.lo = inner.lo + k
+	}
+	if sl.High != nil {
+		k, isC := constInt(sl.High)
+		if !isC || k < 0 {
+			return c07View{}, false
+		}
+		out.hi = inner.lo + k
+	}
+	return out, true
+}
+
+// c07WriteCoversFill: `written` (the argument of hasher.Write) contains every byte that the call
+// `fill` stores through its argument `filled`: both are windows of the same storage and the window
+// written covers the filled one. encoding/binary's PutUintNN store exactly NN/8 bytes at the start
+// of their argument; any other filler is taken to fill its whole argument.
+func c07WriteCoversFill(written, filled ssa.Value, fill *ssa.CallCommon) bool {
+	w, ok1 := c07BufView(written, 0)
+	f, ok2 := c07BufView(filled, 0)
+	if !ok1 || !ok2 || w.base != f.base {
+		return false
+	}
+	if _, isSlice := f.base.Type().Underlying().(*types.Slice); !isSlice {
+		if _, isAlloc := f.base.(*ssa.Alloc); !isAlloc {
+			return false
+		}
+	}
+	lo, hi := f.lo, f.hi
+	if strings.Contains(calleeID(fill), "encoding/binary") {
+		switch calleeName(fill) {
+		case "PutUint16":
+			hi = lo + 2
+		case "PutUint32":
+			hi = lo + 4
+		case "PutUint64":
+			hi = lo + 8
+		}
+	}
+	return w.lo <= lo && (w.hi < 0 || (hi >= 0 && w.hi >= hi))
 }
 
 func rvConstBool(v ssa.Value) (bool, bool) {
